@@ -1,5 +1,6 @@
 import Driver.Util
 import PasslibVerif.Model.Formats.Md5Sha2
+import PasslibVerif.Model.Formats.Static
 namespace Driver.Formats
 open Py Driver Model.Handler Model.Formats
 
@@ -11,7 +12,7 @@ def showParsed (p : Parsed) : String :=
   s!"{showNatList p.ident} {showOptInt p.rounds} {showOptStr p.salt} {showOptStr p.checksum} " ++
   (if p.extra.isEmpty then "-" else ";".intercalate (p.extra.map fun kv => kv.1 ++ "=" ++ showNatList kv.2))
 
-def formats : List Format := Model.Formats.all
+def formats : List Format := Model.Formats.all ++ Model.Formats.staticAll
 
 def handle (args : List String) : String :=
   match args with
